@@ -234,8 +234,33 @@ def suite():
     print('%d of %d candidates survive the suite' % (len(surv), len(data['candidates'])))
 
 
+ORDER = {        # checks most likely to notice a change in a file first (at most six are run)
+    'pyasn1/codec/ber/decoder.py': ['C09', 'C01', 'C08', 'C06', 'C10', 'C15', 'C16', 'C18'],
+    'pyasn1/codec/ber/encoder.py': ['C03', 'C01', 'C04', 'C17', 'C18', 'C02'],
+    'pyasn1/codec/cer/encoder.py': ['C03', 'C02', 'C04', 'C20', 'C17', 'C18'],
+    'pyasn1/codec/der/encoder.py': ['C03', 'C02', 'C04', 'C17'],
+    'pyasn1/codec/cer/decoder.py': ['C15', 'C02', 'C09'],
+    'pyasn1/codec/der/decoder.py': ['C15', 'C02'],
+    'pyasn1/codec/streaming.py': ['C05', 'C06', 'C07', 'C11', 'C08'],
+    'pyasn1/codec/native/encoder.py': ['C17', 'C12'],
+    'pyasn1/codec/native/decoder.py': ['C17', 'C12'],
+    'pyasn1/type/univ.py': ['C19', 'C04', 'C01', 'C14', 'C12', 'C17'],
+    'pyasn1/type/base.py': ['C14', 'C19', 'C12', 'C01'],
+    'pyasn1/type/constraint.py': ['C14', 'C10'],
+    'pyasn1/type/tag.py': ['C13', 'C03', 'C01'],
+    'pyasn1/type/tagmap.py': ['C13', 'C09', 'C01', 'C10'],
+    'pyasn1/type/namedtype.py': ['C01', 'C09', 'C18', 'C10', 'C03', 'C19'],
+    'pyasn1/type/opentype.py': ['C18'],
+    'pyasn1/type/useful.py': ['C20', 'C03', 'C01'],
+    'pyasn1/type/char.py': ['C03', 'C01', 'C16', 'C14'],
+    'pyasn1/compat/integer.py': ['C03', 'C01', 'C09'],
+}
+
+
 def kill(maxn):
     data = json.load(open(os.path.join(OUT, 'survivors.json')))
+    for m in data['survivors']:
+        m['properties'] = ORDER.get(m['file'], m['properties'])[:6]
     path = os.path.join(OUT, 'kill.json')
     done = json.load(open(path)) if os.path.exists(path) else {}
 
